@@ -64,6 +64,7 @@ import (
 	"verif/harness/memconn"
 	"verif/harness/stub"
 	"verif/ref/rtmpref"
+	"verif/ref/rtpref"
 	"verif/ref/rtspref"
 )
 
@@ -198,7 +199,7 @@ func acceptPatient(st *stub.RtmpStub, p *patience) *stub.Conn {
 	return c
 }
 
-func closedPatient(c *stub.Conn, p *patience) bool {
+func closedPatient(c interface{ WaitPeerClose(time.Duration) bool }, p *patience) bool {
 	for !c.WaitPeerClose(100 * time.Millisecond) {
 		if p.over() {
 			return c.WaitPeerClose(time.Millisecond)
@@ -227,6 +228,12 @@ type PubSpec struct {
 	// publisher has been accepted (and HandOverTicks ticks have passed); only then the target answers publish.
 	HandOver      bool `json:"hand_over,omitempty"`
 	HandOverTicks int  `json:"hand_over_ticks,omitempty"`
+	// content published once every target is established: metadata (with or without its own @setDataFrame prefix),
+	// sequence headers, Frames numbered frames with drawn timestamp gaps, optionally a second metadata before frame MetaAt
+	Frames      int    `json:"frames,omitempty"`
+	ContentSeed uint32 `json:"content_seed,omitempty"`
+	MetaSdf     bool   `json:"meta_sdf,omitempty"`
+	MetaAt      int    `json:"meta_at,omitempty"` // 0 = no second metadata; k = before frame k
 }
 
 type PushCase struct {
@@ -273,6 +280,14 @@ func genPushCase(t *rapid.T) PushCase {
 		p.LeaveAt = rapid.SampledFrom([]int{0, 0, 0, 1}).Draw(t, "leaveAt")
 		p.Intruder = rapid.IntRange(0, 4).Draw(t, "intruder") == 0
 		p.Ticks = rapid.IntRange(0, 3).Draw(t, "ticks")
+		p.Frames = rapid.IntRange(3, 9).Draw(t, "frames")
+		p.ContentSeed = rapid.Uint32Range(1, 1<<20).Draw(t, "cseed")
+		if p.Kind == "rtmp" {
+			p.MetaSdf = rapid.Bool().Draw(t, "metaSdf")
+			if rapid.Bool().Draw(t, "meta2") {
+				p.MetaAt = rapid.IntRange(1, p.Frames-1).Draw(t, "metaAt")
+			}
+		}
 		if i+1 < np && rapid.Bool().Draw(t, "handOver") {
 			p.HandOver = true
 			p.HandOverTicks = rapid.IntRange(0, 3).Draw(t, "handOverTicks")
@@ -444,6 +459,170 @@ func hasMarker(ms []rtmpref.Msg, mk []byte) int {
 	return -1
 }
 
+// pmsg is one published (and expected) message.
+type pmsg struct {
+	typ     uint8
+	ts      uint32
+	payload []byte
+}
+
+func nalSerial(nal []byte) (uint32, bool) {
+	if len(nal) < 5 {
+		return 0, false
+	}
+	var v, mul uint32 = 0, 1
+	for i := 1; i <= 4; i++ {
+		if nal[i] < 4 {
+			return 0, false
+		}
+		v += uint32(nal[i]-4) * mul
+		mul *= 251
+	}
+	return v, true
+}
+
+func ensureSdf(p []byte) []byte {
+	if bytes.HasPrefix(p, gen.SdfPrefix) {
+		return p
+	}
+	return append(append([]byte{}, gen.SdfPrefix...), p...)
+}
+
+// rtmpContent: what an RTMP publisher sends. pre goes out right after the publish command (lal caches it), seq once every
+// target is established; the filler only flushes lal's 4 KiB push write buffer and is not judged.
+func rtmpContent(ps PubSpec) (pre, seq []pmsg, filler pmsg) {
+	_, sps, pps := gen.ParamSets("avc", 0)
+	meta := func(v int, sdf bool) []byte {
+		b := gen.MetaBody(v)
+		if sdf {
+			return ensureSdf(b)
+		}
+		return b
+	}
+	pre = []pmsg{
+		{gen.TypeData, 0, meta(0, ps.MetaSdf)},
+		{gen.TypeVideo, 0, append([]byte{0x17, 0, 0, 0, 0}, gen.AvcSeqHeaderBody(sps, pps)...)},
+		{gen.TypeAudio, 0, append([]byte{0xAF, 0}, gen.Asc(2, 4, 2)...)},
+	}
+	gaps := gen.Bytes(ps.ContentSeed, ps.Frames+1)
+	ts := uint32(10 + ps.ContentSeed%50)
+	for i := 0; i < ps.Frames; i++ {
+		if ps.MetaAt == i && i > 0 {
+			seq = append(seq, pmsg{gen.TypeData, ts, meta(1, !ps.MetaSdf)})
+		}
+		switch {
+		case i == 0:
+			nal := gen.NalSpec{Hdr: []byte{0x65}, Len: 40, Seed: ps.ContentSeed + uint32(i), Serial: uint32(i)}.Bytes()
+			seq = append(seq, pmsg{gen.TypeVideo, ts, append([]byte{0x17, 1, 0, 0, 0}, rtpref.AVCC([][]byte{nal})...)})
+		case i%2 == 1:
+			seq = append(seq, pmsg{gen.TypeAudio, ts, append([]byte{0xAF, 1, 0xC1, 0x17, byte(i)}, gen.Bytes(ps.ContentSeed+uint32(i), 16)...)})
+		default:
+			nal := gen.NalSpec{Hdr: []byte{0x41}, Len: 30, Seed: ps.ContentSeed + uint32(i), Serial: uint32(i)}.Bytes()
+			seq = append(seq, pmsg{gen.TypeVideo, ts, append([]byte{0x27, 1, 0, 0, 0}, rtpref.AVCC([][]byte{nal})...)})
+		}
+		ts += 1 + uint32(gaps[i])%60
+	}
+	filler = pmsg{gen.TypeAudio, ts, append([]byte{0xAF, 1}, gen.Bytes(17, 5000)...)}
+	return
+}
+
+func show(m pmsg) string {
+	p := m.payload
+	if len(p) > 12 {
+		p = p[:12]
+	}
+	return fmt.Sprintf("{type %d ts %d len %d % x}", m.typ, m.ts, len(m.payload), p)
+}
+
+// judgeRtmpTarget: the target must have received exactly exp (metadata with the @setDataFrame prefix ensured), in order,
+// each message once, with the published timestamps.
+func judgeRtmpTarget(pi, ti int, got []rtmpref.Msg, exp []pmsg, filler []byte) *pbt.Violation {
+	var g []pmsg
+	for _, m := range got {
+		if !bytes.Equal(m.Payload, filler) {
+			g = append(g, pmsg{m.TypeID, m.Ts, m.Payload})
+		}
+	}
+	for k := 0; k < len(exp) || k < len(g); k++ {
+		switch {
+		case k >= len(g):
+			return pbt.V("push/content/sequence", "publisher %d, target %d: message %d of %d published, %s, never arrived (the last published one did)", pi, ti, k, len(exp), show(exp[k]))
+		case k >= len(exp):
+			return pbt.V("push/content/sequence", "publisher %d, target %d: %d messages arrived for %d published; first extra one %s", pi, ti, len(g), len(exp), show(g[k]))
+		}
+		e, a := exp[k], g[k]
+		if e.typ == gen.TypeData {
+			e.payload = ensureSdf(e.payload)
+		}
+		if a.typ == e.typ && a.ts == e.ts && bytes.Equal(a.payload, e.payload) {
+			continue
+		}
+		if a.typ == gen.TypeData && e.typ == gen.TypeData && !bytes.HasPrefix(a.payload, gen.SdfPrefix) {
+			return pbt.V("push/content/metadata-without-setdataframe", "publisher %d, target %d: message %d is metadata without the @setDataFrame prefix a relay push must carry: %s", pi, ti, k, show(a))
+		}
+		if a.typ == e.typ && bytes.Equal(a.payload, e.payload) {
+			return pbt.V("push/content/timestamp", "publisher %d, target %d: message %d arrived with timestamp %d, published with %d (%s)", pi, ti, k, a.ts, e.ts, show(e))
+		}
+		where := "is not among the published messages"
+		for j, x := range exp {
+			xp := x.payload
+			if x.typ == gen.TypeData {
+				xp = ensureSdf(xp)
+			}
+			if x.typ == a.typ && bytes.Equal(xp, a.payload) {
+				if j < k {
+					where = fmt.Sprintf("is published message %d again (duplicate / reordered)", j)
+				} else {
+					where = fmt.Sprintf("is published message %d (messages %d..%d skipped or late)", j, k, j-1)
+				}
+				break
+			}
+		}
+		return pbt.V("push/content/sequence", "publisher %d, target %d: position %d holds %s, expected %s; what arrived %s", pi, ti, k, show(a), show(e), where)
+	}
+	return nil
+}
+
+// judgeRtspTarget: an RTSP publisher's numbered frames, remuxed by lal, must reach the target in order, each once, 40 ms
+// apart, after a video sequence header; every metadata message carries the @setDataFrame prefix.
+func judgeRtspTarget(pi, ti int, got []rtmpref.Msg, frames int) *pbt.Violation {
+	seenHdr := false
+	var serials []uint32
+	var tss []uint32
+	for k, m := range got {
+		switch {
+		case m.TypeID == gen.TypeData:
+			if !bytes.HasPrefix(m.Payload, gen.SdfPrefix) {
+				return pbt.V("push/content/metadata-without-setdataframe", "publisher %d (rtsp), target %d: message %d is metadata without the @setDataFrame prefix a relay push must carry", pi, ti, k)
+			}
+		case m.TypeID == gen.TypeVideo && len(m.Payload) > 5 && m.Payload[1] == 0:
+			seenHdr = true
+		case m.TypeID == gen.TypeVideo && len(m.Payload) > 5 && m.Payload[1] == 1:
+			nals, _ := rtpref.SplitAVCC(m.Payload[5:])
+			for _, n := range nals {
+				if len(n) > 0 && (n[0]&0x1F == 5 || n[0]&0x1F == 1) {
+					if sn, ok := nalSerial(n); ok {
+						if !seenHdr {
+							return pbt.V("push/content/sequence", "publisher %d (rtsp), target %d: frame %d arrived before any video sequence header", pi, ti, sn)
+						}
+						serials = append(serials, sn)
+						tss = append(tss, m.Ts)
+					}
+				}
+			}
+		}
+	}
+	for i := 0; i < frames; i++ {
+		if i >= len(serials) || serials[i] != uint32(i) {
+			return pbt.V("push/content/sequence", "publisher %d (rtsp), target %d: frames arrived as %v, published 0..%d in order (then padding from 1000)", pi, ti, serials, frames-1)
+		}
+		if d := tss[i] - tss[0]; d != uint32(40*i) {
+			return pbt.V("push/content/timestamp", "publisher %d (rtsp), target %d: frame %d arrived %d ms after frame 0, published 40 ms apart (%d ms)", pi, ti, i, d, 40*i)
+		}
+	}
+	return nil
+}
+
 func runPush(c PushCase) *pbt.Violation {
 	v := runPush0(c)
 	if v == abandonV {
@@ -470,14 +649,17 @@ func runPush0(c PushCase) *pbt.Violation {
 	w.s = s
 
 	_, sps, pps := gen.ParamSets("avc", 0)
-	vsh := append([]byte{0x17, 0, 0, 0, 0}, gen.AvcSeqHeaderBody(sps, pps)...)
-	ash := append([]byte{0xAF, 0}, gen.Asc(2, 4, 2)...)
-	filler := append([]byte{0xAF, 1}, gen.Bytes(17, 5000)...)
 
 	for pi, ps := range c.Pubs {
+		if ps.Frames < 3 {
+			ps.Frames = 3 // replay files written before the content dimension existed
+		}
 		wantName := w.name
 		var pub *lalclient.Publisher
 		var rtspConn *memconn.Conn
+		var rc *rtspref.Client
+		var pre, seq []pmsg
+		var fill pmsg
 		for _, t := range w.targets {
 			t.refuseLeft = t.spec.Refuse
 		}
@@ -497,13 +679,15 @@ func runPush0(c PushCase) *pbt.Violation {
 				}
 				return pbt.V("push/publisher-refused", "publisher %d (rtmp, %d parameter bytes) was refused although the stream has no input: %v", pi, ps.ParamLen, pub.Err)
 			}
-			_ = pub.Send(gen.TypeVideo, 0, vsh, 0)
-			_ = pub.Send(gen.TypeAudio, 0, ash, 0)
+			pre, seq, fill = rtmpContent(ps)
+			for _, m := range pre {
+				_ = pub.Send(m.typ, m.ts, m.payload, 0)
+			}
 			pub.WaitIdle()
 		default:
 			rtspConn = s.RtspConn()
 			_ = rtspConn.SetReadDeadline(time.Now().Add(longWait))
-			rc := rtspref.NewClient(rtspConn)
+			rc = rtspref.NewClient(rtspConn)
 			tracks := []rtspref.Track{{Media: "video", PT: 96, Encoding: "H264", ClockRate: 90000, Fmtp: rtspref.H264Fmtp(sps, pps), Control: "streamid=0"}}
 			if _, err := rc.Publish("rtsp://127.0.0.1:5544/live/"+w.name, tracks); err != nil {
 				if v := s.PanicViolation(); v != nil {
@@ -658,60 +842,73 @@ func runPush0(c PushCase) *pbt.Violation {
 					return pt.verdict(pbt.V("push/session-count-differs", "publisher %d: %d of %d targets answered publish, but %v later lal counts %d push sessions on the stream", pi, nEst, len(w.targets), pt.waited(), g.OutSessionNum()))
 				}
 			}
-			// ---- light content check: headers + a marker reach every established target ---------------------
+			// ---- content: every established target receives what the publisher sends, in order, each message once,
+			// with its timestamp, metadata carrying the @setDataFrame prefix --------------------------------------
 			if pub != nil {
-				pt = newPatience(0)
+				for _, m := range append(append([]pmsg{}, seq...), fill) {
+					if err := pub.Send(m.typ, m.ts, m.payload, 0); err != nil {
+						return pbt.V("push/publisher-disconnected", "publisher %d was disconnected while pushing: %v", pi, err)
+					}
+				}
+				pub.WaitIdle()
+				exp := append(append([]pmsg{}, pre...), seq...)
+				lastP := seq[len(seq)-1].payload
 				for ti, t := range w.targets {
 					if !t.established {
 						continue
 					}
-					// lal's push goroutine attaches the session shortly after the publish answer: markers are
-					// published until one comes through
-					var sent [][]byte
-					found := func() []byte {
-						ms := t.live.MediaSnapshot()
-						for _, m := range sent {
-							if hasMarker(ms, m) >= 0 {
-								return m
+					pt = newPatience(0)
+					if !patient(pt, func() bool { return hasMarker(t.live.MediaSnapshot(), lastP) >= 0 }) {
+						return pt.verdict(pbt.V("push/media-not-forwarded", "publisher %d: target %d is established but the last of %d published messages had not arrived %v later (%d media messages received; last: %s)", pi, ti, len(exp), pt.waited(), len(t.live.MediaSnapshot()), describe(t.live.MediaSnapshot())))
+					}
+					if v := judgeRtmpTarget(pi, ti, t.live.MediaSnapshot(), exp, fill.payload); v != nil {
+						return v
+					}
+				}
+			} else {
+				// numbered frames over RTP, then padding: lal's RTSP ingest hands frames on in bursts of 128 packets (DESIGN
+				// section 7: the newest frames are held until later ones arrive), and the push write buffer wants 4 KiB
+				for i := 0; i < ps.Frames+134; i++ {
+					spec := gen.NalSpec{Hdr: []byte{0x41}, Len: 60, Seed: ps.ContentSeed + uint32(i), Serial: uint32(i)}
+					if i == 0 {
+						spec.Hdr = []byte{0x65}
+					}
+					if i >= ps.Frames {
+						spec.Serial = uint32(1000 + i - ps.Frames)
+					}
+					pl, err := rtpref.H264Single(spec.Bytes())
+					if err != nil {
+						lalclient.Harness("rtp packetise: %v", err)
+					}
+					pk := &rtpref.Packet{PT: 96, Seq: uint16(100 + i), TS: uint32(90000 + i*3600), SSRC: 0x17c17, Marker: true, Payload: pl}
+					if err := rc.WriteFrame(0, pk.Marshal()); err != nil {
+						return pbt.V("push/publisher-disconnected", "publisher %d (rtsp) was disconnected while pushing: %v", pi, err)
+					}
+				}
+				rtspConn.WaitPeerIdle(lalclient.IdleTimeout)
+				lastSeen := func(ms []rtmpref.Msg) bool {
+					for _, m := range ms {
+						if m.TypeID == gen.TypeVideo && len(m.Payload) > 5 && m.Payload[1] == 1 {
+							nals, _ := rtpref.SplitAVCC(m.Payload[5:])
+							for _, n := range nals {
+								if sn, ok := nalSerial(n); ok && len(n) > 0 && n[0]&0x1F == 1 && sn == uint32(ps.Frames-1) {
+									return true
+								}
 							}
 						}
-						return nil
 					}
-					var mk []byte
-					for mk == nil {
-						if len(sent) > 0 && pt.over() {
-							return pt.verdict(pbt.V("push/media-not-forwarded", "publisher %d: target %d is established but none of the %d markers sent by the publisher arrived within %v (%d media messages received; last: %s)", pi, ti, len(sent), pt.waited(), len(t.live.MediaSnapshot()), describe(t.live.MediaSnapshot())))
-						}
-						w.marker++
-						m := []byte{0xAF, 1, 0xC1, 0x17, byte(w.marker >> 16), byte(w.marker >> 8), byte(w.marker), 0x55}
-						sent = append(sent, m)
-						if err := pub.Send(gen.TypeAudio, w.marker, m, 0); err != nil {
-							return pbt.V("push/publisher-disconnected", "publisher %d was disconnected while pushing: %v", pi, err)
-						}
-						// lal's push sessions write through a 4 KiB buffer that only a later write flushes
-						if err := pub.Send(gen.TypeAudio, w.marker, filler, 0); err != nil {
-							return pbt.V("push/publisher-disconnected", "publisher %d was disconnected while pushing: %v", pi, err)
-						}
-						pub.WaitIdle()
-						for k := 0; k < 100 && mk == nil; k++ {
-							if mk = found(); mk == nil {
-								time.Sleep(time.Millisecond)
-							}
-						}
+					return false
+				}
+				for ti, t := range w.targets {
+					if !t.established {
+						continue
 					}
-					ms := t.live.MediaSnapshot()
-					at := hasMarker(ms, mk)
-					seenV, seenA := false, false
-					for _, m := range ms[:at] {
-						if bytes.Equal(m.Payload, vsh) {
-							seenV = true
-						}
-						if bytes.Equal(m.Payload, ash) {
-							seenA = true
-						}
+					pt = newPatience(0)
+					if !patient(pt, func() bool { return lastSeen(t.live.MediaSnapshot()) }) {
+						return pt.verdict(pbt.V("push/media-not-forwarded", "publisher %d (rtsp): target %d is established but frame %d of the published sequence had not arrived %v later (%d media messages received; last: %s)", pi, ti, ps.Frames-1, pt.waited(), len(t.live.MediaSnapshot()), describe(t.live.MediaSnapshot())))
 					}
-					if !seenV || !seenA {
-						return pbt.V("push/headers-not-forwarded", "publisher %d: target %d received the marker without the sequence headers before it (video header %v, audio header %v, %d messages)", pi, ti, seenV, seenA, at)
+					if v := judgeRtspTarget(pi, ti, t.live.MediaSnapshot(), ps.Frames); v != nil {
+						return v
 					}
 				}
 			}
@@ -890,6 +1087,7 @@ type Act struct {
 type PullCase struct {
 	Static   bool  `json:"static,omitempty"`
 	Http     bool  `json:"http,omitempty"` // API calls travel through lal's HTTP-API handlers
+	Rtsp     bool  `json:"rtsp,omitempty"` // the API-started pull uses an rtsp:// url (interleaved) and a scripted RTSP origin
 	Budget   int   `json:"budget"`         // pull_retry_num: -1 forever, 0 never, n
 	AutoStop int   `json:"auto_stop"`      // auto_stop_pull_after_no_out_ms: -1 never, 0 immediately, t
 	Timeout  int   `json:"timeout_ms"`
@@ -905,6 +1103,7 @@ func genPullCase(t *rapid.T) PullCase {
 		c.Budget, c.AutoStop = -1, 0 // what lal documents for the static configuration
 	} else {
 		c.Http = rapid.IntRange(0, 7).Draw(t, "http") == 0
+		c.Rtsp = rapid.IntRange(0, 2).Draw(t, "rtsp") == 0
 		c.Budget = rapid.SampledFrom([]int{0, 0, 1, 2, 3, -1, -1}).Draw(t, "budget")
 		if rapid.IntRange(0, 2).Draw(t, "asClass") == 0 {
 			c.AutoStop = rapid.IntRange(30, 80).Draw(t, "autoStopMs")
@@ -1123,25 +1322,70 @@ func (h *httpAPI) kick(name, id string) int {
 // ---- the world ---------------------------------------------------------------------------------------------
 
 type attempt struct {
-	n       int // ordinal
-	conn    *stub.Conn
-	started time.Time // taken before the triggering call: lal's timeout cannot expire before started+timeout
+	n       int        // ordinal
+	conn    *stub.Conn // rtmp origin side
+	rc      *rtspOConn // rtsp origin side
+	started time.Time  // taken before the triggering call: lal's timeout cannot expire before started+timeout
 	outcome int
 	apiID   string // id the API answered for it ("" when it was not started by the API)
 	id      string // id seen in notifications
 }
 
-type pullWorld struct {
-	c      PullCase
-	s      *inproc.Server
-	origin *stub.RtmpStub
-	api    apiCaller
-	name   string
-	url    string
-	m      pm
+func (at *attempt) close() {
+	if at.rc != nil {
+		at.rc.Close()
+	} else {
+		at.conn.Close()
+	}
+}
 
-	subs     []*lalclient.Consumer
-	pub      *lalclient.Publisher
+func (at *attempt) WaitPeerClose(d time.Duration) bool {
+	if at.rc != nil {
+		return at.rc.WaitPeerClose(d)
+	}
+	return at.conn.WaitPeerClose(d)
+}
+
+// viewer is a consumer of the stream, of any kind lal counts as "somebody is watching".
+type viewer struct {
+	kind string // rtmp | flv | ts | rtsp
+	c    *lalclient.Consumer
+	conn *memconn.Conn
+}
+
+func (v *viewer) leave() {
+	_ = v.conn.Close()
+	v.conn.WaitPeerDone(lalclient.IdleTimeout)
+}
+
+var viewerKinds = []string{"rtmp", "flv", "ts", "rtsp"}
+var pubKinds = []string{"rtmp", "rtsp", "customize"}
+
+// pubKind: which kind of publisher a pub action offers.  A customize publisher has no app name; when it would create the
+// stream's group under a static pull configuration, lal derives the pull url from that empty app name - a configuration
+// corner outside the rules, avoided by construction.
+func pubKind(sel int, static, exists bool) string {
+	k := pubKinds[sel%len(pubKinds)]
+	if k == "customize" && static && !exists {
+		return "rtmp"
+	}
+	return k
+}
+
+type pullWorld struct {
+	c       PullCase
+	s       *inproc.Server
+	origin  *stub.RtmpStub
+	rorigin *rtspOrigin
+	api     apiCaller
+	name    string
+	url     string
+	m       pm
+
+	subs     []*viewer
+	pub      *lalclient.Publisher              // the accepted publisher, by kind
+	pubRtsp  *memconn.Conn                     //
+	pubCust  logic.ICustomizePubSessionContext //
 	inflight *attempt
 	attached *attempt
 	staleIDs []string
@@ -1224,27 +1468,48 @@ func (w *pullWorld) inflightUnsafe() bool {
 }
 
 // expectAttempt: the rules demand an attempt caused by a trigger issued at `started`.
+func (w *pullWorld) seenAtOrigin() int {
+	if w.c.Rtsp {
+		return w.rorigin.Attempts()
+	}
+	return w.origin.Attempts()
+}
+
 func (w *pullWorld) expectAttempt(started time.Time, apiID string) *pbt.Violation {
 	w.m.attempt()
 	w.nAttempts++
 	pt := newPatience(0)
-	oc := acceptPatient(w.origin, pt)
-	if oc == nil {
+	at := &attempt{n: w.nAttempts, started: started, apiID: apiID}
+	if w.c.Rtsp {
+		patient(pt, func() bool { at.rc = w.rorigin.TryAccept(); return at.rc != nil })
+	} else {
+		at.conn = acceptPatient(w.origin, pt)
+	}
+	if at.rc == nil && at.conn == nil {
 		if v := w.s.PanicViolation(); v != nil {
 			return v
 		}
+		// an attempt that lal reports as stopped without any connection having reached the origin is no attempt at all
+		// (the wait is only given up once this process has proven responsive: a slow dial would have arrived)
 		_, stops := w.pullEvents()
-		if len(stops) > w.nStops {
-			w.abandon("attempt-ended-before-it-reached-the-origin")
-			return nil
-		}
-		return pt.verdict(pbt.V("pull/no-attempt", "%s: the rules demand a connection attempt (enabled, no input, none in flight, budget %d with %d used, consumers %d) but the origin saw none within %v and no attempt was reported as stopped", w.step, w.m.budget, w.m.used-1, w.m.subs, pt.waited()))
+		return pt.verdict(pbt.V("pull/no-attempt", "%s: the rules demand a connection attempt (enabled, no input, none in flight, budget %d with %d used, consumers %d) but the origin saw none within %v (attempts reported as stopped meanwhile: %d)", w.step, w.m.budget, w.m.used-1, w.m.subs, pt.waited(), len(stops)-w.nStops))
 	}
-	at := &attempt{n: w.nAttempts, conn: oc, started: started, outcome: w.nextOutcome(), apiID: apiID}
+	at.outcome = w.nextOutcome()
 	if at.outcome == ocRefuse {
-		oc.Close()
+		at.close()
 		return w.attemptEnded(at, "the origin refused the connection")
 	}
+	if at.rc != nil {
+		if err := at.rc.ServeUntilDescribe(); err != nil {
+			return w.stubTrouble(at, "OPTIONS / DESCRIBE", err)
+		}
+		if at.rc.DescribeURI != w.url {
+			return pbt.V("pull/play-command-differs", "%s: the rtsp pull session sent DESCRIBE %q, want %q", w.step, at.rc.DescribeURI, w.url)
+		}
+		w.inflight = at
+		return nil
+	}
+	oc := at.conn
 	if err := oc.Handshake(); err != nil {
 		return w.stubTrouble(at, "handshake", err)
 	}
@@ -1263,7 +1528,7 @@ func (w *pullWorld) stubTrouble(at *attempt, what string, err error) *pbt.Violat
 		return v
 	}
 	el := time.Since(at.started)
-	at.conn.Close()
+	at.close()
 	if el > w.timeout()/2 || !responsive() {
 		w.abandon("harness-too-slow-for-pull-timeout")
 		return nil
@@ -1297,7 +1562,7 @@ func (w *pullWorld) attemptEnded(at *attempt, why string) *pbt.Violation {
 		return pbt.V("api/start-session-id-differs", "%s: start_relay_pull answered session %s, the attempt it started is reported as %s", w.step, at.apiID, at.id)
 	}
 	w.staleIDs = append(w.staleIDs, at.id)
-	at.conn.Close()
+	at.close()
 	return nil
 }
 
@@ -1305,7 +1570,7 @@ func (w *pullWorld) attemptEnded(at *attempt, why string) *pbt.Violation {
 func (w *pullWorld) sessionClosed(reason string) *pbt.Violation {
 	at := w.attached
 	pt := newPatience(0)
-	if !closedPatient(at.conn, pt) {
+	if !closedPatient(at, pt) {
 		return pt.verdict(pbt.V("pull/session-not-closed/"+reason, "%s: the attached pull session %s must be closed (%s) but its connection to the origin was still open %v later", w.step, at.id, reason, pt.waited()))
 	}
 	w.attached = nil
@@ -1320,7 +1585,7 @@ func (w *pullWorld) sessionClosed(reason string) *pbt.Violation {
 		return pbt.V("pull/stop-reported-for-other-session", "%s: pull session %s was closed (%s) but the stop notification names %s", w.step, at.id, reason, got)
 	}
 	w.staleIDs = append(w.staleIDs, at.id)
-	at.conn.Close()
+	at.close()
 	if sg := w.s.SM.StatGroup(w.name); sg != nil && sg.StatPull.SessionId != "" {
 		return pbt.V("pull/session-still-listed", "%s: pull session %s was closed (%s) but the stat API still lists pull session %q", w.step, at.id, reason, sg.StatPull.SessionId)
 	}
@@ -1342,10 +1607,14 @@ func (w *pullWorld) resolve() *pbt.Violation {
 	case ocStall:
 		return w.attemptEnded(at, "the origin never answered play; lal's pull timeout")
 	case ocLateClose:
-		at.conn.Close()
-		return w.attemptEnded(at, "the origin closed after the play command; lal's pull timeout")
+		at.close()
+		return w.attemptEnded(at, "the origin closed after the play / DESCRIBE request")
 	}
-	if err := at.conn.AcceptPlay(); err != nil {
+	if at.rc != nil {
+		if err := at.rc.AnswerDescribe(originSdp()); err != nil {
+			return w.stubTrouble(at, "DESCRIBE answer", err)
+		}
+	} else if err := at.conn.AcceptPlay(); err != nil {
 		return w.stubTrouble(at, "play answer", err)
 	}
 	may := w.m.mayAttach()
@@ -1381,7 +1650,7 @@ func (w *pullWorld) resolve() *pbt.Violation {
 			if may {
 				if time.Since(at.started) > w.timeout()*8/10 {
 					w.m.inflight, w.inflight = false, nil
-					at.conn.Close()
+					at.close()
 					w.abandon("harness-too-slow-for-pull-timeout")
 					return nil
 				}
@@ -1397,13 +1666,49 @@ func (w *pullWorld) resolve() *pbt.Violation {
 		}
 		time.Sleep(200 * time.Microsecond)
 	}
+	if at.rc != nil {
+		// lal attaches an rtsp pull at the DESCRIBE answer and goes on with SETUP / PLAY inside the same pull timeout
+		pt := newPatience(0)
+		ok := patient(pt, func() bool {
+			select {
+			case <-at.rc.played:
+				return true
+			case <-at.rc.gone:
+				return true
+			default:
+				return false
+			}
+		})
+		select {
+		case <-at.rc.played:
+		default:
+			if time.Since(at.started) > w.timeout()*8/10 || !ok && !pt.proven {
+				w.abandon("harness-too-slow-for-pull-timeout")
+				return nil
+			}
+			return pbt.V("pull/rtsp-session-not-played", "%s: rtsp pull session %s attached at the DESCRIBE answer but never completed SETUP / PLAY (%v after the trigger, pull timeout %v)", w.step, at.id, time.Since(at.started).Round(time.Millisecond), w.timeout())
+		}
+		if time.Since(at.started) > w.timeout()*8/10 {
+			w.abandon("harness-too-slow-for-pull-timeout")
+			return nil
+		}
+		if oc == ocPlayClose {
+			at.close()
+			return w.sessionClosed("origin-closed")
+		}
+		return nil
+	}
 	// media flows
 	w.marker++
 	mk := []byte{0xAF, 1, 0xC1, 0x17, byte(w.marker >> 8), byte(w.marker), 0xAA}
 	if err := w.attached.conn.SendMedia(rtmpref.TypeAudio, w.marker, mk); err != nil {
 		return pbt.V("pull/session-closed-early", "%s: pull session %s attached but its connection is closed: %v", w.step, w.attached.id, err)
 	}
-	for i, sb := range w.subs {
+	for i, vw := range w.subs {
+		if vw.c == nil {
+			continue // delivery into TS / RTSP is C06's subject
+		}
+		sb := vw.c
 		pt := newPatience(0)
 		got := false
 		for !got && !sb.Ended() && !pt.over() {
@@ -1414,10 +1719,16 @@ func (w *pullWorld) resolve() *pbt.Violation {
 		}
 	}
 	if oc == ocPlayClose {
-		w.attached.conn.Close()
+		w.attached.close()
 		return w.sessionClosed("origin-closed")
 	}
 	return nil
+}
+
+// originSdp is what the scripted RTSP origin describes: one H.264 track.
+func originSdp() []byte {
+	_, sps, pps := gen.ParamSets("avc", 0)
+	return rtspref.BuildSdp([]rtspref.Track{{Media: "video", PT: 96, Encoding: "H264", ClockRate: 90000, Fmtp: rtspref.H264Fmtp(sps, pps), Control: "streamid=0"}})
 }
 
 func (w *pullWorld) doAct(a Act) *pbt.Violation {
@@ -1425,14 +1736,27 @@ func (w *pullWorld) doAct(a Act) *pbt.Violation {
 	switch a.K {
 	case "sub":
 		t0 := time.Now()
-		var cc *lalclient.Consumer
-		if a.S%2 == 0 {
-			cc = lalclient.NewRtmpSub(s, "live", w.name)
-		} else {
-			cc = lalclient.NewFlvSub(s, "live", w.name, false)
+		vw := &viewer{kind: viewerKinds[a.S%len(viewerKinds)]}
+		switch vw.kind {
+		case "rtmp":
+			vw.c = lalclient.NewRtmpSub(s, "live", w.name)
+			vw.conn = vw.c.Conn
+		case "flv":
+			vw.c = lalclient.NewFlvSub(s, "live", w.name, false)
+			vw.conn = vw.c.Conn
+		case "ts":
+			vw.conn = lalclient.NewTsSub(s, "live", w.name).Conn
+		case "rtsp":
+			// an RTSP player that has sent DESCRIBE: lal lists it among the stream's subscribers from then on (it can
+			// only go on to PLAY once the stream has an sdp); it is not one of the pull triggers (Group.addSub runs at PLAY)
+			vw.conn = s.RtspConn()
+			if _, err := rtspref.NewClient(vw.conn).WriteRequest("DESCRIBE", "rtsp://127.0.0.1:5544/live/"+w.name, map[string]string{"Accept": "application/sdp"}, nil); err != nil {
+				lalclient.Harness("rtsp describe: %v", err)
+			}
+			vw.conn.WaitPeerIdle(lalclient.IdleTimeout)
 		}
 		t1 := time.Now()
-		if cc.JoinErr() != nil {
+		if vw.c != nil && vw.c.JoinErr() != nil || vw.conn.PeerGone() {
 			if v := s.PanicViolation(); v != nil {
 				return v
 			}
@@ -1440,9 +1764,9 @@ func (w *pullWorld) doAct(a Act) *pbt.Violation {
 			return nil
 		}
 		w.created(t0, t1)
-		w.subs = append(w.subs, cc)
+		w.subs = append(w.subs, vw)
 		w.m.subs++
-		if w.m.want(false) {
+		if vw.kind != "rtsp" && w.m.want(false) {
 			return w.expectAttempt(t0, "")
 		}
 	case "leave":
@@ -1450,41 +1774,67 @@ func (w *pullWorld) doAct(a Act) *pbt.Violation {
 			return nil
 		}
 		i := a.S % len(w.subs)
-		w.subs[i].Close()
-		w.subs[i].Conn.WaitPeerDone(lalclient.IdleTimeout)
+		w.subs[i].leave()
 		w.subs = append(w.subs[:i], w.subs[i+1:]...)
 		w.m.subs--
 	case "pub":
-		if w.pub != nil {
+		if w.m.pub {
 			return nil
 		}
-		t0 := time.Now()
-		p := lalclient.NewPublisher(s, "live", w.name, 0)
-		t1 := time.Now()
-		w.created(t0, t1)
 		wantAccepted := !w.m.attached
-		if (p.Err == nil) != wantAccepted {
-			if p.Err == nil && p.Conn.WaitPeerDone(lalclient.IdleTimeout) {
-				// the publish status precedes admission; the refusal is the disconnect
-				p.Close()
-				return nil
+		t0 := time.Now()
+		accepted := false
+		switch pubKind(a.S, w.m.static, w.m.exists) {
+		case "rtmp":
+			p := lalclient.NewPublisher(s, "live", w.name, 0)
+			accepted = p.Err == nil
+			if accepted && !wantAccepted && p.Conn.WaitPeerDone(lalclient.IdleTimeout) {
+				accepted = false // the publish status precedes admission; the refusal is the disconnect
 			}
+			if accepted {
+				w.pub = p
+			} else {
+				p.Close()
+			}
+		case "rtsp":
+			conn := s.RtspConn()
+			_ = conn.SetReadDeadline(time.Now().Add(longWait))
+			_, sps, pps := gen.ParamSets("avc", 0)
+			tracks := []rtspref.Track{{Media: "video", PT: 96, Encoding: "H264", ClockRate: 90000, Fmtp: rtspref.H264Fmtp(sps, pps), Control: "streamid=0"}}
+			_, err := rtspref.NewClient(conn).Publish("rtsp://127.0.0.1:5544/live/"+w.name, tracks)
+			_ = conn.SetReadDeadline(time.Time{})
+			accepted = err == nil
+			if accepted {
+				conn.WaitPeerIdle(lalclient.IdleTimeout)
+				w.pubRtsp = conn
+			} else {
+				_ = conn.Close()
+				conn.WaitPeerDone(lalclient.IdleTimeout)
+			}
+		case "customize":
+			var ctx logic.ICustomizePubSessionContext
+			var err error
+			s.Call("AddCustomizePubSession", func() { ctx, err = s.SM.AddCustomizePubSession(w.name) })
+			accepted = err == nil && ctx != nil
+			if accepted {
+				w.pubCust = ctx
+			}
+		}
+		t1 := time.Now()
+		if v := s.PanicViolation(); v != nil {
+			return v
+		}
+		w.created(t0, t1)
+		if accepted != wantAccepted {
 			w.abandon("publisher-admission-differs(C03)")
 			return nil
 		}
-		if p.Err != nil {
-			p.Close()
-			return nil
-		}
-		w.pub = p
-		w.m.pub = true
+		w.m.pub = accepted
 	case "unpub":
-		if w.pub == nil {
+		if !w.m.pub {
 			return nil
 		}
-		w.pub.Close()
-		w.pub.Conn.WaitPeerDone(lalclient.IdleTimeout)
-		w.pub = nil
+		w.dropPublisher()
 		w.m.pub = false
 	case "sleep":
 		if w.c.AutoStop <= 0 {
@@ -1636,9 +1986,26 @@ func (w *pullWorld) doAct(a Act) *pbt.Violation {
 	return nil
 }
 
+func (w *pullWorld) dropPublisher() {
+	switch {
+	case w.pub != nil:
+		w.pub.Close()
+		w.pub.Conn.WaitPeerDone(lalclient.IdleTimeout)
+		w.pub = nil
+	case w.pubRtsp != nil:
+		_ = w.pubRtsp.Close()
+		w.pubRtsp.WaitPeerDone(lalclient.IdleTimeout)
+		w.pubRtsp = nil
+	case w.pubCust != nil:
+		ctx := w.pubCust
+		w.s.Call("DelCustomizePubSession", func() { w.s.SM.DelCustomizePubSession(ctx) })
+		w.pubCust = nil
+	}
+}
+
 // invariant: after quiescence the origin and the notification recorder have seen exactly what the rules demand.
 func (w *pullWorld) invariant() *pbt.Violation {
-	if n := w.origin.Attempts(); n > w.nAttempts {
+	if n := w.seenAtOrigin(); n > w.nAttempts {
 		return pbt.V("pull/unexpected-attempt", "after %s: the origin has seen %d connection attempts, the rules allow %d (enabled=%v publisher=%v attached=%v in flight=%v used %d of budget %d consumers %d auto-stop %d)", w.step, n, w.nAttempts,
 			w.m.enabled(), w.m.pub, w.m.attached, w.m.inflight, w.m.used, w.m.budget, w.m.subs, w.m.autoStop)
 	}
@@ -1684,6 +2051,15 @@ func runPull0(c PullCase) *pbt.Violation {
 	defer s.Close()
 	w := &pullWorld{c: c, s: s, origin: origin, name: "c17pull"}
 	w.url = "rtmp://" + origin.Addr + "/live/" + w.name
+	if c.Rtsp {
+		ro, err := newRtspOrigin()
+		if err != nil {
+			lalclient.Harness("rtsp origin listen: %v", err)
+		}
+		defer ro.Close()
+		w.rorigin = ro
+		w.url = "rtsp://" + ro.Addr + "/live/" + w.name
+	}
 	w.m = pm{static: c.Static, budget: c.Budget, autoStop: c.AutoStop}
 	if c.Http {
 		w.api = newHTTPAPI(s)
@@ -1737,17 +2113,15 @@ func runPull0(c PullCase) *pbt.Violation {
 	}
 	// teardown (nothing is asserted from here on)
 	if w.inflight != nil {
-		w.inflight.conn.Close()
+		w.inflight.close()
 	}
 	if w.attached != nil {
-		w.attached.conn.Close()
+		w.attached.close()
 	}
 	for _, sb := range w.subs {
-		sb.Close()
+		_ = sb.conn.Close()
 	}
-	if w.pub != nil {
-		w.pub.Close()
-	}
+	w.dropPublisher()
 	return s.PanicViolation()
 }
 
@@ -1857,7 +2231,13 @@ func (s *sim) apply(a Act) {
 	case "sub":
 		s.create()
 		m.subs++
-		if m.want(false) {
+		kind := viewerKinds[a.S%len(viewerKinds)]
+		s.label("consumer:" + kind)
+		if kind == "rtsp" {
+			if m.want(false) {
+				s.label("rtsp-consumer-waits-for-tick")
+			}
+		} else if m.want(false) {
 			s.attempt(false)
 			s.label("attempt-on-subscriber")
 		}
@@ -1866,11 +2246,13 @@ func (s *sim) apply(a Act) {
 			m.subs--
 		}
 	case "pub":
+		kind := pubKind(a.S, m.static, m.exists)
 		s.create()
 		if !m.pub && !m.attached {
 			m.pub = true
+			s.label("publisher:" + kind)
 			if m.inflight {
-				s.label("publisher-while-pull-in-flight")
+				s.label("publisher-while-pull-in-flight:" + kind)
 			}
 		}
 	case "unpub":
@@ -1967,6 +2349,11 @@ func classifyPull(c PullCase) (bool, []string) {
 	}
 	if c.Http {
 		s.label("api-over-http")
+	}
+	if c.Rtsp {
+		s.label("pull-url:rtsp")
+	} else {
+		s.label("pull-url:rtmp")
 	}
 	switch {
 	case c.Budget < 0:
